@@ -61,7 +61,7 @@ func unmanagedSet(a *cisco.Conf, sc *cisco.Scope) map[string]string {
 			unmanagedRoots = append(unmanagedRoots, k)
 			continue
 		}
-		if d, ok := cisco.Defines(o.Head); ok {
+		if d, ok := cisco.Owner(o.Head); ok {
 			k := id(d)
 			text[k] += t + "\n"
 			refs[k] = append(refs[k], cisco.LineRefs(o)...)
@@ -170,7 +170,7 @@ func frameCheck(cur *cisco.Conf, sc *cisco.Scope, orig map[string]string) string
 			_ = i
 			continue
 		}
-		if d, ok := cisco.Defines(o.Head); ok {
+		if d, ok := cisco.Owner(o.Head); ok {
 			now[d.Kind+" "+d.Name] += t + "\n"
 			continue
 		}
@@ -281,7 +281,7 @@ func routeDsts(c *cisco.Conf, sc *cisco.Scope) map[string]bool {
 
 // ExecPlan executes the script step by step on a copy of the device state
 // with all step-wise oracles.
-func ExecPlan(cs *CiscoCase, p Plan, keepStates bool, stepwise bool) *Outcome {
+func ExecPlan(cs *CiscoCase, p Plan, keepStates bool, stepwise bool, loose ...bool) *Outcome {
 	o := &Outcome{Plan: p, Accepted: p.Exit == 0 && p.Panic == ""}
 	if !o.Accepted {
 		return o
@@ -289,6 +289,10 @@ func ExecPlan(cs *CiscoCase, p Plan, keepStates bool, stepwise bool) *Outcome {
 	sc := cisco.ScopeOf(cs.B)
 	n := cisco.NewNode(cs.A.Clone())
 	n.InConfig = true
+	if len(loose) > 0 && loose[0] {
+		// A device that does not enforce referential rules (frame check only).
+		n.Strict = false
+	}
 	o.Node = n
 	orig := unmanagedSet(cs.A, sc)
 	pk := gen.Packets()
